@@ -2,6 +2,7 @@ package lint
 
 import (
 	"fmt"
+	"go/token"
 	"strings"
 
 	"golang.org/x/tools/go/ssa"
@@ -363,6 +364,35 @@ func runC15(c *Ctx) {
 	// ---------- R15.10 writes bypass the cache
 	c.Rule("R15.10", "E5", "read-modify-write operations of controllers go to the live state: adapters are built on runtime.state, and Create/Update/Modify/Teardown/Destroy/AddFinalizer/RemoveFinalizer of the state adapter never call into the read cache", 10)
 	liveStateRules(c, "R15.10")
+
+	// ---------- R15.11 one producer
+	c.Rule("R15.11", "E5", "the cache has one producer, in watch order: CacheAppend / CachePut / CacheRemove / MarkBootstrapped are called only from the runtime's event loop (processEvents) — a second, unordered writer (write-through after a state operation, a refresh on read) could put an older version over a newer one or add an entry before the bootstrap snapshot", 4)
+
+	nProd := 0
+	loop := p.Method(pkgRuntime, "Runtime", "processEvents")
+
+	for _, f := range p.AllOwnFuncs() {
+		pk := pkgOfFunc(f)
+		if strings.Contains(pk, "conformance") {
+			continue
+		}
+
+		for _, call := range p.Calls(f, cacheT+".CacheAppend", cacheT+".CachePut", cacheT+".CacheRemove", cacheT+".MarkBootstrapped") {
+			nProd++
+
+			root := f
+			for root.Parent() != nil {
+				root = root.Parent()
+			}
+
+			ok := loop != nil && root == loop
+			c.Check(ok, "R15.11", FuncName(f)+" :: "+strings.TrimPrefix(p.CalleeName(call), cacheT+".")+" is called from the event loop", call.Pos(), "runtime.processEvents", "a second producer of cache contents: "+FuncName(f))
+		}
+	}
+
+	if nProd < 4 {
+		c.Unknown("R15.11", "cache producers", token.NoPos, fmt.Sprintf("anchor-unresolved: %d producer call sites found, expected >= 4", nProd))
+	}
 
 }
 
